@@ -26,7 +26,9 @@ def rand_field_value(rnd, forbid=""):
     if k == 2:
         return ("bool", rnd.random() < 0.5)
     if k in (3, 4):
-        return ("num", rnd.choice(["0", "1", "-1", "12", "1.5", "-0.25", "1000000", "18446744073709551615", "-9223372036854775808", "0.001", "250"]))
+        return ("num", rnd.choice(["0", "1", "-1", "12", "1.5", "-0.25", "1000000", "18446744073709551615", "-9223372036854775808", "0.001", "250",
+                                     # whole numbers of the integer range written with an exponent or a fraction: held and printed as the integer
+                                     "1e19", "10000000000000000000.0", "9223372036854775808.0", "1.2e19", "-9e18", "1e3", "25e-1"]))
     if k == 5:
         return ("arr", [("num", "1"), ("str", PL.cps(rand_str(rnd, forbid)))] if rnd.random() < 0.7 else [])
     if k == 6:
